@@ -96,16 +96,25 @@ theorem advanceToClosingTag_render (doc : Bytes) (hH : doc.length ≤ HALF) (st 
   simp only [List.length_append] at hlen
   have hcl : (closePatOf nm).length = nm.length + 3 := by simp [closePatOf]
   unfold advanceToClosingTag
-  simp only [hemp, Bool.false_eq_true, if_false, pure, Except.pure, bind, Except.bind, hdab, hnl, NODE_CLOSE_OVERHEAD]
-  have h1 : ¬ (nm.length + 3 > st.cur.len) := by omega
-  simp only [h1, if_false]
+  simp only [hemp, Bool.false_eq_true, if_false, pure, Except.pure, bind, Except.bind, hdab, hnl]
+  -- the closing tag is there, so it fits the rest of the document
+  have h1 : Gen.XmlConsts.closingTagCannotFit (nm.length + Gen.XmlConsts.closingOverhead) st.cur.len = false := by
+    cases hc : Gen.XmlConsts.closingTagCannotFit (nm.length + Gen.XmlConsts.closingOverhead) st.cur.len with
+    | false => rfl
+    | true =>
+      have := (closingTagCannotFit_iff _ _).mp hc
+      have ho : Gen.XmlConsts.closingOverhead = 3 := by decide
+      omega
+  simp only [h1, Bool.false_eq_true, if_false]
   by_cases hmax : nm.length ≤ MAX_NAME_LEN
-  · have h2 : ¬ (MAX_NAME_LEN + 3 < nm.length + 3) := by omega
-    simp only [h2, if_false, hmax, if_true]
+  · have h2 : Gen.XmlConsts.nameTooLong (nm.length + Gen.XmlConsts.closingOverhead) = false := (nameTooLong_iff _).mpr hmax
+    simp only [h2, Bool.false_eq_true, if_false, hmax, if_true]
     rw [← hnl, slice_ok hnv]
     have hseg : (doc.drop node.name.off).take node.name.len = nm := by
       rw [← hname]; simp [seg]
     simp only [hseg]
+    obtain ⟨hpo, hpc⟩ := patterns_fit (nm := nm) h2
+    rw [hpo, hpc]
     have hd2 : doc.drop st.cur.off = renderToks (toksL ks ++ [Tok.cls nm]) ++ tail := by
       rw [hd, renderToks_append]; simp [renderKids, renderToks, Tok.render, closePatOf]
     have hw : ToksWF (toksL ks ++ [Tok.cls nm]) := by
@@ -122,7 +131,10 @@ theorem advanceToClosingTag_render (doc : Bytes) (hH : doc.length ≤ HALF) (st 
     subst hc1 hc2
     simp only [herr, Bool.not_false, Nat.add_sub_cancel_left]
     exact ⟨_, rfl, rfl, by simp [closePatOf], rfl, rfl, rfl, rfl, rfl⟩
-  · have h2 : MAX_NAME_LEN + 3 < nm.length + 3 := by omega
+  · have h2 : Gen.XmlConsts.nameTooLong (nm.length + Gen.XmlConsts.closingOverhead) = true := by
+      cases hc : Gen.XmlConsts.nameTooLong (nm.length + Gen.XmlConsts.closingOverhead) with
+      | true => rfl
+      | false => exact absurd ((nameTooLong_iff _).mp hc) hmax
     simp only [h2, if_true, hmax, if_false]
     exact ⟨_, rfl, rfl, rfl⟩
 
